@@ -241,7 +241,10 @@ vars == <<c, phase>>
 Init == /\ phase = "chosen"
         /\ CASE Struct = "sps" -> c \in [v : SpsVectors]
              [] Struct = "pps" -> c \in {[p |-> [p EXCEPT !.id = ids[1], !.spsid = ids[2]], sps |-> [sps EXCEPT !.id = ids[2]]] :
-                                            p \in PpsVectors, ids \in IdPairs, sps \in {SpsBase, [SpsBase EXCEPT !.profile = 244, !.chroma = 3]}}
+                                            p \in PpsVectors, ids \in IdPairs, sps \in {SpsBase, [SpsBase EXCEPT !.profile = 244, !.chroma = 3],
+                                                                                     \* 4:4:4 coded as three separate planes: ChromaArrayType 0, but the PPS still
+                                                                                     \* carries 12 scaling lists (7.3.2.2 tests chroma_format_idc, not ChromaArrayType)
+                                                                                     [SpsBase EXCEPT !.profile = 244, !.chroma = 3, !.sepcol = TRUE]}}
              [] Struct = "slice" -> c \in {x \in SliceCases : SliceOK(x)}
 Serialise == phase = "chosen" /\ phase' = "serialised" /\ UNCHANGED c
 Next == Serialise
